@@ -190,7 +190,7 @@ PROPS["C18"] = {
     "rule": "one evaluation = one (header model, tool configuration, command-line shape) run through the real cglue-bindgen binary under 6 (quick) / 12 (thorough) process hash seeds with a fake cbindgen subprocess; distinct = distinct output digest; non-trivial = the tool accepted the header and produced output",
     "real": ["cglue-bindgen binary built from /repo (main.rs argument splitting, config, codegen/c.rs, codegen/cpp.rs, types.rs)", "cc -std=c99 -fsyntax-only", "c++ -std=c++11 -fsyntax-only with all templates instantiated", "glibc dynamic loader (LD_PRELOAD)"],
     "stub": ["cbindgen (fake executable on PATH printing the run's header, recording argv, failing on request)", "getrandom (shim: hash seed = f(SIMRAND_SEED))", "input headers (hdrgen: model of cbindgen's output shape, C and C++)"],
-    "assumptions": COMMON_ASSUMPTIONS + ["hdrgen is a model of an external tool: its shapes are taken from the regular expressions in codegen/c.rs and from bindings.h; no real cbindgen exists offline", "C++ mode is not modelled"],
+    "assumptions": COMMON_ASSUMPTIONS + ["hdrgen is a model of an external tool: its shapes are taken from the regular expressions in codegen/c.rs and from bindings.h; no real cbindgen exists offline", "the C++ header model is narrower than the C one (reference-counted context only, groups over traits without real temporaries, not the configuration that makes NoContext the default context)"],
 }
 
 
